@@ -19,17 +19,17 @@ const (
 const never = token.Pos(1 << 40)
 
 type az struct {
-	w      *world
-	fn     *fnode
-	p      *pkgInfo
-	mask   uint64
-	sum    *summary
-	fresh  map[*types.Var]bool      // fresh locals and owned parameters
-	esc    map[*types.Var]bool      // already escaped
-	decl   map[*types.Var]token.Pos // declaration position of fresh vars
-	guards []guard
-	loops  []ast.Node
-	defers []*ast.CallExpr
+	w       *world
+	fn      *fnode
+	p       *pkgInfo
+	mask    uint64
+	sum     *summary
+	fresh   map[*types.Var]bool      // fresh locals and owned parameters
+	esc     map[*types.Var]bool      // already escaped
+	decl    map[*types.Var]token.Pos // declaration position of fresh vars
+	guards  []guard
+	loops   []ast.Node
+	defers  []*ast.CallExpr
 	indefer bool
 }
 
@@ -389,13 +389,8 @@ func (a *az) pathRoot(e ast.Expr) (root *types.Var, inObject bool) {
 }
 
 func (a *az) ownedRoot(root *types.Var, inObject bool) bool {
-	if root == nil || !inObject || !a.fresh[root] || a.esc[root] {
-		return false
-	}
-	if a.indefer {
-		return true // deferred code runs last: owned only if it never escaped (esc is final here)
-	}
-	return true
+	// (deferred code is analysed last, when esc is final: owned only if it never escaped)
+	return root != nil && inObject && a.fresh[root] && !a.esc[root]
 }
 
 func (a *az) isLocalCopy(root *types.Var, inObject bool) bool {
@@ -573,9 +568,6 @@ func (a *az) expr(e ast.Expr, mode int) {
 	case *ast.UnaryExpr:
 		if v.Op == token.AND {
 			a.expr(v.X, mAddr)
-			if cl, ok := unparen(v.X).(*ast.CompositeLit); ok {
-				_ = cl
-			}
 			return
 		}
 		a.expr(v.X, mRead)
